@@ -1,8 +1,52 @@
 """C04 - numbers load exactly or are reported per policy, never silently altered."""
 import json
+import os
 import vlib
 from vlib import Check
 from checks import mpcommon as mp
+
+
+def csv_cell_leg(chk, sc, keys):
+    """CSV cell position: the text the specification renders for the numeric source (the same text as in the XML element) is put
+    into a CSV cell and loaded into the same target type with the same policies; the prescribed observation is the one of the XML
+    member position (both archives hand the text to the same conversion: exact value, Overflow / MismatchedTypes per policy)."""
+    exe = vlib.build("csv_fault_c32", ["csv_fault.cpp"], groups=("csv", "common"), defines=["BITSERIALIZER_VERIF_ENC_CHUNK_SIZE=32"])
+    rows, src = [], []
+    seen = set()
+    for s in sc:
+        txt = s.get("celltext") or []
+        if not txt or any(c in (44, 34, 13, 10) or c > 126 for c in txt):
+            continue
+        ops = s["root"]["ops"]
+        key = (tuple(txt), ops[0]["t"], s["pol"]["mm"], s["pol"]["ov"])
+        if key in seen:
+            continue
+        seen.add(key)
+        doc = [97, 44, 98, 13, 10] + list(txt) + [44, 55, 13, 10]           # a,b CRLF <text>,7 CRLF
+        for stream in (False, True):
+            rows.append({"id": "cell%d" % len(rows), "save": False, "stream": stream, "doc": doc,
+                         "keys": [{"k": ops[0]["ks"], "t": ops[0]["t"]}, {"k": ops[1]["ks"], "t": ops[1]["t"]}],
+                         "pol": {"mm": s["pol"]["mm"], "ov": s["pol"]["ov"]}, "fault": {"kind": "probe", "k": 0}})
+            src.append(s)
+    sp = os.path.join(vlib.scratch(), "c04_csv.ndjson")
+    vlib.write_ndjson(sp, rows)
+    obs = vlib.run_resumable([exe, "fault", sp], timeout=1800)
+    os.unlink(sp)
+    if len(obs) != len(rows):
+        raise vlib.MachineryError("C04 csv leg: %d observations for %d runs" % (len(obs), len(rows)))
+    pairs = []
+    for r, s, o in zip(rows, src, obs):
+        o["medium"] = "sstream" if r["stream"] else "mem"
+        o["chunk"] = 32
+        o["arch"] = "csv"
+        pairs.append((dict(s, doc=r["doc"], root={"csv_keys": r["keys"]}), o))
+    mp.judge(chk, pairs, "csv cell numeric load")
+    keys |= set(("csv", json.dumps(r["doc"]), json.dumps(r["keys"]), json.dumps(r["pol"])) for r in rows)
+    chk.cov["csv_cell_runs"] = len(rows)
+    if rows:
+        chk.sample({"archive": "csv", "document": bytes(rows[len(rows) // 2]["doc"]).decode("latin-1"), "keys": rows[len(rows) // 2]["keys"],
+                    "policies": rows[len(rows) // 2]["pol"], "expected": src[len(rows) // 2]["exp"]})
+    return len(rows)
 
 
 def run_check(tier):
@@ -12,7 +56,7 @@ def run_check(tier):
                        "loaded by the real archive; distinct = distinct (document bytes, script, policies)")
     chk.assumptions += ["expected outcome = spec/LoadScript.tla LoadLeaf (exact value, rounding to a floating point target, Overflow / MismatchedTypes per policy, skip)",
                         "int -> float targets are prescribed for |n| < 2^24 (exactly representable); larger magnitudes into float targets are left open",
-                        "XML attributes and CSV cells are not driven here (text cells: C09/C16); direct Convert::To between arithmetic types is exercised through the MsgPack reader, which funnels every integer format through ConvertByPolicy"]
+                        "CSV cells carry the text the specification renders for the XML element and are judged by the same prescription; direct Convert::To between arithmetic types is exercised through the MsgPack reader, which funnels every integer format through ConvertByPolicy"]
     quick = tier == "quick"
     rng = {"NumNeg": "130" if quick else "32770", "NumPos": "260" if quick else "65540"}
     total = 0
@@ -28,6 +72,8 @@ def run_check(tier):
             pairs = mp.replay(part, media, 8, "n" + arch[0], arch)
             mp.judge(chk, pairs, "%s numeric load" % arch)
             total += len(pairs)
+        if arch == "xml":
+            total += csv_cell_leg(chk, sc, keys)
         keys |= set((arch, json.dumps(s["doc"]), json.dumps(s["root"]), json.dumps(s["pol"])) for s in sc)
         chk.cov.setdefault("unspecified_scenarios", {})[arch] = sum(1 for s in sc if s["exp"]["exc"] == ["unspecified"])
         s = sc[len(sc) // 3]
